@@ -8,6 +8,7 @@ import (
 	"path/filepath"
 	"slices"
 	"strings"
+	"sync/atomic"
 	"syscall"
 	"time"
 
@@ -86,6 +87,11 @@ func (e *Executor) watchTasks(calls ...*Call) error {
 				ctx, cancel = context.WithCancel(context.Background())
 
 				e.Compiler.ResetCache()
+				// Every watch event starts a new run: the call counts that
+				// guard against cyclic task references start over with it
+				for _, count := range e.taskCallCount {
+					atomic.StoreInt32(count, 0)
+				}
 
 				for _, c := range calls {
 					c := c
@@ -163,12 +169,22 @@ func closeOnInterrupt(w *fsnotify.Watcher) {
 }
 
 func (e *Executor) registerWatchedDirs(w *fsnotify.Watcher, calls ...*Call) error {
+	// Tasks that are being registered further up the call chain: a task that
+	// references itself (directly or through other tasks) is not followed again
+	registering := map[string]bool{}
+
 	var registerTaskDirs func(*Call) error
 	registerTaskDirs = func(c *Call) error {
 		task, err := e.CompiledTask(c)
 		if err != nil {
 			return err
 		}
+
+		if registering[task.Task] {
+			return nil
+		}
+		registering[task.Task] = true
+		defer delete(registering, task.Task)
 
 		for _, d := range task.Deps {
 			if err := registerTaskDirs(&Call{Task: d.Task, Vars: d.Vars}); err != nil {
